@@ -74,6 +74,93 @@ def create_over_existing(rng):
     return s
 
 
+FAILED_RE = re.compile(r"^(?:\d+\s+)?(\w+)\((.*)\)\s+= -1 (E\w+)")
+
+
+def failed_mutations(trace):
+    """[(call, first path, errno, line)] for failed calls that were meant to change the scenario directory (relative paths),
+    leaving out the probes whose failure is an answer and not a fault: mkdir of an existing directory, removal of a directory
+    that is not empty"""
+    out = []
+    for l in trace:
+        m = FAILED_RE.match(l)
+        if not m:
+            continue
+        name, args, err = m.groups()
+        strs = l2._STR.findall(args)
+        if not strs or strs[0].startswith("/"):
+            if not (name.startswith("symlink") and len(strs) > 1 and not strs[-1].startswith("/")):
+                continue
+        if name in ("openat", "open", "creat"):
+            if not ("O_WRONLY" in args or "O_RDWR" in args or "O_CREAT" in args or name == "creat"):
+                continue
+        elif name in ("mkdir", "mkdirat"):
+            if err == "EEXIST":
+                continue
+        elif name == "rmdir" or (name == "unlinkat" and "AT_REMOVEDIR" in args):
+            if err in ("ENOTEMPTY", "EEXIST"):
+                continue
+        elif name not in ("rename", "renameat", "renameat2", "unlink", "unlinkat", "chmod", "fchmodat", "symlink", "symlinkat"):
+            continue
+        out.append((name, strs[0], err, l[:200]))
+    return out
+
+
+def symlink_section(path, target):
+    hs = [dict(os=0, oc=0, ns=1, nc=1, body=[("+", target, "N")])]
+    text = emit.emit_git(path, path, hs, kind="add", new_mode="120000")
+    return dict(path=path, newpath=path, a=[], b=[(target, "N")], text=text, fmt="git", kind="add", hs=hs, ops=[("+", (target, "N"))], mode_old=None, mode_new="120000", w=0)
+
+
+def natural_failures(rng, n):
+    scns = []
+    hows = ["link-name-dangling", "link-name-empty-file", "link-in-readonly-dir", "link-free", "readonly-dir-backup", "readonly-dir-delete", "readonly-dir-add",
+            "dir-at-output", "rename-dest-dir", "reject-name-dir", "readonly-dir-rename", "copy-dest-readonly-dir"]
+    for i in range(n):
+        how = hows[i % len(hows)]
+        o = {}
+        if how.startswith("link-"):
+            p = rng.choice(["active", "ld/active"])
+            sec = symlink_section(p, rng.choice(["new", "../x", "t"]))
+            s = scen.base_scenario(rng, [sec], opts=o)
+            scen.add_parents(s["tree"], p)
+            if how == "link-name-dangling":
+                s["tree"][p] = ("S", 0, b"gone")
+            elif how == "link-name-empty-file":
+                s["tree"][p] = ("R", 0o644, b"")
+            elif how == "link-in-readonly-dir":
+                s["tree"]["ld"] = ("D", 0o555, b"")
+        else:
+            kind = {"readonly-dir-delete": "delete", "readonly-dir-add": "add", "rename-dest-dir": "rename", "readonly-dir-rename": "rename",
+                    "copy-dest-readonly-dir": "copy"}.get(how, "change")
+            sec = scen.section(rng, "rd/f", kind=kind, fmt=("git" if kind in ("rename", "copy") else rng.choice(["unified", "git", "context"])), nonl=False)
+            if how in ("readonly-dir-backup",):
+                o["b"] = 1
+            if how == "dir-at-output":
+                o["o"] = "outd"
+            if how == "reject-name-dir":
+                o["f"] = 1
+            s = scen.base_scenario(rng, [sec], opts=o)
+            scen.add_parents(s["tree"], "rd/f")
+            if how.startswith("readonly-dir"):
+                s["tree"]["rd"] = ("D", 0o555, b"")
+            if how == "dir-at-output":
+                s["tree"]["outd"] = ("D", 0o755, b"")
+            if how == "rename-dest-dir":
+                scen.add_parents(s["tree"], sec["newpath"]); s["tree"][sec["newpath"]] = ("D", 0o755, b"")
+            if how == "copy-dest-readonly-dir":
+                sec2 = dict(sec)
+                scen.add_parents(s["tree"], sec["newpath"])
+                par = sec["newpath"].rsplit("/", 1)[0] if "/" in sec["newpath"] else None
+                if par:
+                    s["tree"][par] = ("D", 0o555, b"")
+            if how == "reject-name-dir":
+                s["tree"]["rd/f"] = ("R", 0o644, b"nothing here matches\n"); s["tree"]["rd/f.rej"] = ("D", 0o755, b"")
+        s["how"] = how
+        scns.append(s)
+    return scns
+
+
 def run_c10(run_, rng, tier, exe):
     q = tier == "quick"
     scns = fault_scenarios(rng, 16 if q else 120) + [big_scenario(rng), create_over_existing(rng), create_over_existing(rng)]
@@ -138,6 +225,25 @@ def run_c10(run_, rng, tier, exe):
                          dict(scenario=describe(al_scns[i]), inject="%s:error=EIO:when=%d" % (name, k), model=mc[:1500], impl_line=l2.impl_line(r)[:1500],
                               stderr=r["stderr"].decode("latin-1")[-300:])))
     run_.cov["aligned_fault_schedules"] = len(al_jobs)
+    # failures nobody injects: the tree itself makes a call fail (the name of a link to create is taken, a directory is
+    # read-only or stands where a file has to go, a target is not writable).  A failed mutating call must end in exit status 2
+    # unless it is one of the probes whose failure is the expected answer (mkdir of a directory that exists, rmdir of a
+    # directory that is not empty); the runs are compared with the model as well.
+    nat = natural_failures(rng, 60 if q else 800)
+    nres = run_many(exe, nat, strace=l2.TRACE_CALLS, timeout=30)
+    nmodel = run_model([l2.model_line(s) for s in nat])
+    for i, (s, r, ml) in enumerate(zip(nat, nres, nmodel)):
+        failed = failed_mutations(r.get("trace", []))
+        run_.count("natural " + l2.model_line(s), True, "natural failure %s: %s -> exit %d" % (s["how"], failed[0][0] + " " + failed[0][2] if failed else "none", r["exit"]))
+        rep = dict(scenario=describe(s), failed_calls=[f[3] for f in failed], impl=dict(exit=r["exit"], stdout=r["stdout"].decode("latin-1")[-600:],
+                   stderr=r["stderr"].decode("latin-1")[-400:], tree=fmt_tree(r["tree"])))
+        if failed and (r["exit"] != 2 or not r["stderr"].strip()):
+            bad.append((i, "%s failed with %s (%s) and the run ends with exit status %d%s" % (failed[0][0], failed[0][2], s["how"], r["exit"],
+                        "" if r["stderr"].strip() else " without a diagnostic"), rep))
+        mc, _, _ = l2.model_canon(ml)
+        if mc != l2.impl_line(r):
+            mism.append((i, "L2 (natural failure %s)" % s["how"], dict(rep, model=mc[:2000], impl_line=l2.impl_line(r)[:2000])))
+    run_.cov["natural_failure_scenarios"] = len(nat)
     # the fault-free runs are also compared with the model
     model = run_model([l2.model_line(s) for s in scns])
     for i, (s, r0, ml) in enumerate(zip(scns, base, model)):
@@ -272,6 +378,27 @@ def run_c09(run_, rng, tier, exe):
         return None
     _, b2_, m2_ = l2_family(run_, exe, blocked, judge_blocked, cls=lambda s, r: "backup blocked %s exit %d" % (s["how"], r["exit"]), label="C09a''")
     bad += b2_; mism += m2_
+    # (a3) runs that end on their own, under option mixes that decide whether anything is written at all (--dry-run, -N,
+    # drifted targets with rejects): afterwards a rename source is only gone when its destination is there, and with -b the
+    # original content of every touched file is at its path or its backup path
+    whole = []
+    for _ in range(120 if q else 1500):
+        o = dict(rng.choice([{"dry": 1}, {"dry": 1, "b": 1}, {}, {"b": 1}, {"N": 1}, {"f": 1}, {"dry": 1, "f": 1}, {"b": 1, "f": 1}, {"t": 1}, {"dry": 1, "v": 1}]))
+        whole.append(scen.gen_scenario(rng, nsec=rng.choice([1, 2, 3]), kinds=rng.choice([["rename"], ["rename", "change"], ["rename", "copy", "delete"], ["change", "delete"]]),
+                                       opts=o, drift=rng.choice([0, 0, 0.5])))
+
+    def judge_whole(s, r):
+        t = tree_no_meta(r["tree"])
+        for x in s["secs"]:
+            if x["kind"] == "rename":
+                src = t.get(x["path"]); dst = t.get(x["newpath"])
+                if not (src and src[2] == s["tree"][x["path"]][2]) and dst is None:
+                    return "after the run (exit %d) the rename source %s is gone and the destination %s does not exist" % (r["exit"], x["path"], x["newpath"])
+        if s["opts"].get("b"):
+            return backup_ok(s, r["tree"])
+        return None
+    _, b3_, m3_ = l2_family(run_, exe, whole, judge_whole, cls=lambda s, r: "whole run %s exit %d" % ("dry" if s["opts"].get("dry") else "real", r["exit"]), label="C09a3")
+    bad += b3_; mism += m3_
     # (b) SIGKILL before every system call that touches the scenario
     ks = fault_scenarios(rng, 6 if q else 50)
     for _ in range(4 if q else 30):
